@@ -134,6 +134,10 @@ pub fn check(case: &Case) -> Verdict {
     if !same4(got, r4) {
         fail!("{}: Rate::new reports components {:?}", note, (amt::show(got.0), got.1, amt::show(got.2), got.3));
     }
+    let got = (r.clone_roundtrip)(r4);
+    if !same4(got, r4) {
+        fail!("{}: a clone of the rate reports components {:?}", note, (amt::show(got.0), got.1, amt::show(got.2), got.3));
+    }
     let got = (r.from_qty_vals)((ta, case.term_unit), (pm, case.per_unit));
     if !same4(got, r4) {
         fail!("{}: Rate::from_qty_vals reports components {:?}", note, (amt::show(got.0), got.1, amt::show(got.2), got.3));
